@@ -7,10 +7,12 @@ import (
 	"go/ast"
 	"go/parser"
 	"go/token"
+	"io"
 	"os"
 	"path/filepath"
 	"sort"
 	"strings"
+	"sync"
 
 	mxj "github.com/clbanning/mxj/v2"
 	"github.com/clbanning/mxj/v2/j2x"
@@ -125,6 +127,48 @@ func leafStr(ln []mxj.LeafNode) []string {
 	return s
 }
 
+var legacyCharsetOnce sync.Once
+
+// the wrappers decode with the CORE's settings: with the core's XmlCharsetReader set (a pass-through for an ASCII document that
+// declares another encoding) every wrapper that takes XML text decodes what the core decodes (the family is serial: no other
+// worker decodes meanwhile)
+func legacyCharsetCheck() string {
+	defer func() { mxj.XmlCharsetReader = nil }()
+	mxj.XmlCharsetReader = func(label string, input io.Reader) (io.Reader, error) { return input, nil }
+	doc := `<?xml version="1.0" encoding="ISO-8859-1"?><doc k="v"><a>x</a><a>y</a><b><c>7</c></b></doc>`
+	cm, cerr := mxj.NewMapXml([]byte(doc))
+	if cerr != nil {
+		return "" // (the core itself refuses it: nothing to compare)
+	}
+	want := tagged.CanonGo(map[string]interface{}(cm))
+	cj, _ := cm.Json()
+	if g, e := wrap.DocToMap(doc); e != nil || tagged.CanonGo(g) != want {
+		return fmt.Sprintf("mxj.XmlCharsetReader set, document %q: x2j-wrapper.DocToMap = %s (err %v), NewMapXml gives %s", doc, tagged.CanonGo(g), e, want)
+	}
+	if g, e := wrap.ByteDocToMap([]byte(doc)); e != nil || tagged.CanonGo(g) != want {
+		return fmt.Sprintf("mxj.XmlCharsetReader set, document %q: x2j-wrapper.ByteDocToMap = %s (err %v), NewMapXml gives %s", doc, tagged.CanonGo(g), e, want)
+	}
+	if g, e := wrap.DocToJson(doc); e != nil || g != string(cj) {
+		return fmt.Sprintf("mxj.XmlCharsetReader set, document %q: x2j-wrapper.DocToJson = %s (err %v), the core gives %s", doc, g, e, cj)
+	}
+	if g, e := wrap.ToMap(strings.NewReader(doc)); e != nil || tagged.CanonGo(g) != want {
+		return fmt.Sprintf("mxj.XmlCharsetReader set, document %q: x2j-wrapper.ToMap(reader) = %s (err %v), NewMapXml gives %s", doc, tagged.CanonGo(g), e, want)
+	}
+	if g, e := wrap.PathsForTag(doc, "c"); e != nil || fmt.Sprint(g) != "[doc.b.c]" {
+		return fmt.Sprintf("mxj.XmlCharsetReader set, document %q: x2j-wrapper.PathsForTag(c) = %v (err %v)", doc, g, e)
+	}
+	if g, e := wrap.ValuesFromTagPath(doc, "doc.a"); e != nil || len(g) != 2 {
+		return fmt.Sprintf("mxj.XmlCharsetReader set, document %q: x2j-wrapper.ValuesFromTagPath(doc.a) = %v (err %v)", doc, g, e)
+	}
+	if g, e := x2j.XmlToMap([]byte(doc)); e != nil || tagged.CanonGo(g) != want {
+		return fmt.Sprintf("mxj.XmlCharsetReader set, document %q: x2j.XmlToMap = %s (err %v), NewMapXml gives %s", doc, tagged.CanonGo(g), e, want)
+	}
+	if g, e := x2j.XmlToJson([]byte(doc)); e != nil || string(g) != string(cj) {
+		return fmt.Sprintf("mxj.XmlCharsetReader set, document %q: x2j.XmlToJson = %s (err %v), the core gives %s", doc, g, e, cj)
+	}
+	return ""
+}
+
 func replayLegacy(line []byte, a *Acc) {
 	var l legLine
 	if err := json.Unmarshal(line, &l); err != nil {
@@ -137,6 +181,11 @@ func replayLegacy(line []byte, a *Acc) {
 	mv := mxj.Map(m)
 	before := tagged.CanonGo(m)
 	one := func(sig, detail string) { a.Mis(sig, fmt.Sprintf("Map %s: %s", short(before), detail), l) }
+	legacyCharsetOnce.Do(func() {
+		if f := legacyCharsetCheck(); f != "" {
+			one("legacy:charset-reader", f)
+		}
+	})
 	var hl held
 	defer hl.check(func(name, was, now string) {
 		one("legacy:result-changed-later", fmt.Sprintf("the bytes returned by %s were %q and read %q after later wrapper calls", name, was, now))
@@ -497,6 +546,26 @@ func replayLegacy(line []byte, a *Acc) {
 				_, j1, ea := x2j.XmlReaderToJson(rd, safe)
 				_, j2, eb := x2j.XmlReaderToJson(rd, safe)
 				eq(fmt.Sprintf("x2j.XmlReaderToJson twice on one stream of two messages (safe=%v)", safe), string(j1)+cls(ea)+"|"+string(j2)+cls(eb), string(cj)+"ok|"+string(cj)+"ok")
+			}
+			{
+				// a stream whose tail is not a message (a newline, a comment, an instruction): the call that finds the end hands on
+				// what the core's reader consumed on the way, with the core's error
+				for _, tail := range []string{"\n", "<!-- c -->", "<?p i?>\n "} {
+					st := append(append([]byte{}, xdoc...), tail...)
+					rd1, rd2 := hideByteReader{bytes.NewReader(st)}, hideByteReader{bytes.NewReader(st)}
+					x2j.XmlReaderToJson(rd1, safe)
+					mxj.NewMapXmlReaderRaw(rd2)
+					r1, j1, e1 := x2j.XmlReaderToJson(rd1, safe)
+					_, r2, e2 := mxj.NewMapXmlReaderRaw(rd2)
+					eq(fmt.Sprintf("x2j.XmlReaderToJson at the end of a stream that ends in %q", tail), fmt.Sprintf("%q|%q|%v", r1, j1, e1), fmt.Sprintf("%q|%q|%v", r2, "", e2))
+					rd1, rd2 = hideByteReader{bytes.NewReader(st)}, hideByteReader{bytes.NewReader(st)}
+					var wa, wb bytes.Buffer
+					x2j.XmlReaderToJsonWriter(rd1, &wa, safe)
+					mxj.NewMapXmlReaderRaw(rd2)
+					r1, j1, e1 = x2j.XmlReaderToJsonWriter(rd1, &wb, safe)
+					_, r2, e2 = mxj.NewMapXmlReaderRaw(rd2)
+					eq(fmt.Sprintf("x2j.XmlReaderToJsonWriter at the end of a stream that ends in %q", tail), fmt.Sprintf("%q|%q|%q|%v", r1, j1, wb.String(), e1), fmt.Sprintf("%q|%q|%q|%v", r2, "", "", e2))
+				}
 			}
 			called("XmlReaderToJsonWriter")
 			w.Reset()
